@@ -374,7 +374,7 @@ DX_VALUES = [0.0, 1.0, -1.0, 5.97222497, -123456.789, 1e-300, -1e-300, 1e300, -1
              12.123456789, 13.23456789, 14.3456789, 15.456789, 16.56789, 17.6789012, 18.7890123, 19.8901234, 20.9012345, 21.0123456]  # 25 = 1 x 5 x 5 values: not a multiple of three or six
 DX_COUNTS = (1, 5, 5)
 DX_ORIGIN = (-1.5, 2.25, 3.0)
-DX_DELTAS = [(0.5, 0.0, 0.0), (0.0, 0.25, 0.0), (0.0, 0.0, 1.0)]
+DX_DELTAS = [(0.5, 0.125, 0.0), (-0.0625, 0.25, 0.03125), (0.0, -0.75, 1.0)]  # a sheared, rotated grid: nine distinct entries, not symmetric
 
 
 def dx_model_lines():
@@ -460,6 +460,23 @@ def rule_model_conversion(prog, rep):
           "; each equals its DX value to the printed precision (magnitudes from 1e-300 to 1e300, zero, negatives)"), where)
     rows = [len(ln.split()) for ln in lines[6 + len(want_atoms):] if ln.strip()]
     r.add("model|rows", bool(rows) and max(rows) <= 6, f"values per row: {rows}", where)
+    # counts wider than the usual columns: a long axis, a very long axis, and more than ten thousand atoms
+    big_counts, n_big = (1234, 100000, 7), 12345
+    written.clear()
+    wide = dict(dx)
+    key = next((k for k, v in dx.items() if list(v) == list(DX_COUNTS)), None) if isinstance(dx, dict) else None
+    if key is None:
+        raise AnalysisError("read_dx: the grid counts are not stored as one entry of the returned mapping")
+    wide[key] = type(dx[key])(big_counts) if isinstance(dx[key], (list, tuple)) else list(big_counts)
+    try:
+        run.call_function("io.py", "write_cube", {"__class__": "FileModel"}, wide, [atoms[0]] * n_big)
+    except Flow as fl:
+        r.bad("model|wide-counts", f"write_cube stops with {fl.value} for grid counts {big_counts} and {n_big} atoms", where)
+        return
+    hl = "".join(str(x) for x in written).split("\n")[2:6]
+    got = [_num(ln.split()[0]) if ln.split() else None for ln in hl]
+    r.add("model|wide-counts", got == [n_big, -big_counts[0], -big_counts[1], -big_counts[2]],
+          f"header integers {got} for {n_big} atoms and grid counts {big_counts} (no digit may be cut or merged with the next field)", where)
     r.info["methods_interpreted"] = sorted(set(run.calls))
 
 
